@@ -147,4 +147,33 @@ def c07_schedules(pid, tier, seed):
                 sample={"program": runs[0]["program"], "threads": runs[0]["threads"], "schedule": runs[0]["schedule"]})
 
 
+def c02_schedules(pid, tier, seed):
+    """C02, schedule clause: bars of one MultiProgress updated from several threads. Every sequence of L thread choices (Choices.tla) at
+    lock granularity under the controlled scheduler; every painted frame is parsed back to (bar, position) pairs and judged by Trace_Sync!FramesOK."""
+    q = tier == "quick"
+    progs = [("two_bars", 2, [[("inc", 1), ("inc", 1), ("finish", 1)], [("inc", 2), ("inc", 2), ("finish", 2)]]),
+             ("shared_bar", 2, [[("inc", 1), ("inc", 2), ("finish", 1)], [("inc", 1), ("finish", 2)]])]
+    if not q:
+        progs.append(("three_threads", 2, [[("inc", 1), ("finish", 1)], [("inc", 2), ("inc", 1)], [("inc", 2), ("finish", 2)]]))
+    runs = []
+    states = trans = 0
+    for name, nbars, callers in progs:
+        wd = vlib.workdir("%s_choices_%s" % (pid, name))
+        out, dist, gen = vlib.run_tlc("Choices", vlib.cfg_text(dict(N=len(callers), L=9 if q else (12 if len(callers) == 2 else 9)), invariants=["TypeOK"]), wd, workers=2)
+        states += dist
+        trans += gen
+        for h in vlib.histories_from(out):
+            runs.append({"setup": {"multi": True, "bars": nbars, "ticker": [], "named": True}, "framecheck": True, "keep": True,
+                         "threads": [[{"op": o, "b": b} for (o, b) in caller] for caller in callers], "schedule": h["schedule"], "spincheck": False, "program": name})
+    bad, st, total = vlib.replay_and_judge("%s_sched" % pid, runs, "sync", "Trace_Sync", shards=8)
+    byh = {r["h"]: r for r in runs}
+    fails = [dict(cls="%s/%s" % (v["rule"], byh[v["h"]]["program"]), rule=v["rule"], n=len(byh[v["h"]]["schedule"]), kf=[],
+                  what="rule=%s program=%s" % (v["rule"], byh[v["h"]]["program"]),
+                  replay={"driver": "sync", "monitor": "Trace_Sync", "rule": v["rule"], "history": byh[v["h"]]}) for v in bad]
+    if st.get("frames", 0) == 0:
+        raise vlib.ToolError("vacuous run: no frame was judged")
+    return dict(states=states, transitions=trans, runs=len(runs), records=total, stats=st, fails=fails,
+                sample={"program": runs[0]["program"], "threads": runs[0]["threads"], "schedule": runs[0]["schedule"]})
+
+
 PROPS = {"C08": c08}
